@@ -5,6 +5,7 @@ example. Multiple parts are typically stored in a
 part.
 """
 import math
+import re
 from xdoctest import utils
 from xdoctest import checker
 from xdoctest import directive
@@ -16,6 +17,19 @@ TODO:
     perhaps rename doctest part to DoctestCell, because there is a striking
     similarity between Jupyter notebook cells and doctest parts.
 """
+
+
+def _splitlines(s):
+    """
+    The lines of a docstring as the tokenizer and the file count them: broken
+    at newlines (and carriage returns) only. ``str.splitlines`` also breaks at
+    form feeds, vertical tabs and unicode separators, which shifts every line
+    number reported for the doctests behind such a character.
+    """
+    lines = re.split('\\r\\n|\\r|\\n', s)
+    if lines and lines[-1] == '':
+        lines.pop()
+    return lines
 
 
 class DoctestPart:
@@ -303,7 +317,7 @@ class DoctestPart:
             n_digits = math.log(max(1, endline), 10)
             n_digits = int(math.ceil(n_digits))
 
-        part_lines = src_text.splitlines()
+        part_lines = _splitlines(src_text)
         n_spaces = 0
 
         if linenos:
@@ -322,7 +336,7 @@ class DoctestPart:
         want_lines = []
         if want_text:
             want_fmt = ' ' * n_spaces + '{line}'
-            for line in want_text.splitlines():
+            for line in _splitlines(want_text):
                 if want:
                     want_lines.append(want_fmt.format(line=line))
 
